@@ -169,6 +169,18 @@ PROPS = {
         assumptions=["D1/D2 contracts of read_be over Cursor/Chain readers, GenericArray slicing and typenum lengths (assumed stubs)", A['D_FQ'], A['TOOLS'],
                      "rewrite R12 (range indexing on GenericArray / Vec -> named accessors)"],
     ),
+    'C16': dict(
+        units_quick=['symx:iso'], units_thorough=['symx:iso'], timeout=600, category='other',
+        technique="symbolic execution of the real eval_iso / isogeny_map bodies (compiled by rustc against a symbolic commutative ring; loops have constant bounds) + exact factored polynomial normal form against the rational map; NOT a Verus/Kani proof",
+        claim="eval_iso with the G1 (11-isogeny: 12/11/16/16 coefficients) and G2 (3-isogeny: 4/3/4/4) tables computes, for every (X, Y, Z) over any commutative ring "
+              "and any coefficient values, Z' = xden*yden, X' = xnum*yden*Z', Y' = Z'^2*ynum*xden with xnum = H_xnum(X,Z), xden = H_xden(X,Z) Z^2, ynum = H_ynum(X,Z) Y, "
+              "yden = H_yden(X,Z) Z^3 and H_k(X,Z) = sum_i k_i X^i Z^(2(n-i)): i.e. X'/Z'^2 = x_num(x)/x_den(x), Y'/Z'^3 = y*y_num(x)/y_den(x) at x = X/Z^2, y = Y/Z^3, "
+              "independently of the representative, and Z = 0 or a zero of a denominator gives Z' = 0. Decided by symbolic execution of the real body and polynomial identity, "
+              "not by a deductive verifier (Verus could not be given a contract for the three &mut references returned by as_tuple_mut).",
+        not_covered=["the coefficient tables equal the RFC 9380 appendix E constants (not checked)", "the image lies on the target curve; homomorphism law (A9)",
+                     "trusted: rustc's semantics of the sliced text, vx/symx_base.rs, vx/ring.py (exact integer polynomial arithmetic)"],
+        assumptions=["the field operations used by eval_iso (zero, square, mul_assign, add_assign) are those of a commutative ring (C08/C09 contracts)", "A9"],
+    ),
 }
 
 HOOK_COMMITS = []
